@@ -73,6 +73,8 @@ pub struct Gen<'a> {
     pub comments: bool,
     pub expr_budget: usize,
     labels: usize,
+    /// tame profile: no redundant parentheses, no multi-line strings, no comments
+    pub tame: bool,
 }
 
 const BINOPS: [(&str, u8, bool); 15] = [
@@ -118,6 +120,7 @@ impl<'a> Gen<'a> {
             comments: true,
             expr_budget: 0,
             labels: 0,
+            tame: false,
         }
     }
 
@@ -132,7 +135,7 @@ impl<'a> Gen<'a> {
 
     pub fn fresh(&mut self) -> String {
         self.name_k += 1;
-        let long = self.rng.chance(1, 6);
+        let long = !self.tame && self.rng.chance(1, 6);
         if long {
             format!("v{}_{}_{}", self.stmt_no, self.name_k, "long_identifier_name_for_width")
         } else {
@@ -188,6 +191,10 @@ impl<'a> Gen<'a> {
     }
 
     pub fn string(&mut self) -> String {
+        if self.tame {
+            let w = self.rng.pick_s(&["a", "hello", "some text", "x", ""]);
+            return if self.rng.chance(1, 2) { format!("\"{w}\"") } else { format!("'{w}'") };
+        }
         let form = self.rng.below(10);
         let n = self.rng.below(4);
         match form {
@@ -268,7 +275,7 @@ impl<'a> Gen<'a> {
                 let e = self.expr(depth - 1);
                 E::Un(op, Box::new(e))
             }
-            5 => {
+            5 if !self.tame => {
                 let e = self.expr(depth - 1);
                 E::Paren(Box::new(e))
             }
@@ -320,7 +327,7 @@ impl<'a> Gen<'a> {
                     E::Bin(_, p, _, _, _) => *p < UNARY_PREC,
                     _ => false,
                 };
-                let extra = !need && self.rng.chance(1, 8);
+                let extra = !need && !self.tame && self.rng.chance(1, 8);
                 if need || extra {
                     out.push("(".into());
                 }
@@ -339,8 +346,8 @@ impl<'a> Gen<'a> {
                     E::Bin(_, rp, _, _, _) => rp < p || (rp == p && !*right),
                     _ => false,
                 };
-                let extra_l = !need_l && self.rng.chance(1, 8);
-                let extra_r = !need_r && self.rng.chance(1, 8);
+                let extra_l = !need_l && !self.tame && self.rng.chance(1, 8);
+                let extra_r = !need_r && !self.tame && self.rng.chance(1, 8);
                 if need_l || extra_l {
                     out.push("(".into());
                 }
@@ -368,7 +375,7 @@ impl<'a> Gen<'a> {
             1 => v.extend(self.table_tokens(depth)),
             _ => {
                 v.push("(".into());
-                let n = self.rng.below(4);
+                let n = if self.tame { self.rng.below(3) } else { self.rng.below(4) };
                 for i in 0..n {
                     if i > 0 {
                         v.push(",".into());
@@ -385,7 +392,7 @@ impl<'a> Gen<'a> {
 
     fn table_tokens(&mut self, depth: usize) -> Vec<String> {
         let mut v = vec!["{".to_string()];
-        let n = if depth == 0 { self.rng.below(2) } else { self.rng.below(5) };
+        let n = if depth == 0 || self.tame { self.rng.below(3) } else { self.rng.below(5) };
         for i in 0..n {
             match self.rng.below(4) {
                 0 => {
@@ -435,7 +442,7 @@ impl<'a> Gen<'a> {
         } else {
             v.push(self.name_ref());
         }
-        let n = self.rng.below(4) + if must_end_in_call { 1 } else { 0 };
+        let n = if self.tame { self.rng.below(2) } else { self.rng.below(4) } + if must_end_in_call { 1 } else { 0 };
         for i in 0..n {
             let last = i + 1 == n;
             let k = if last && must_end_in_call { 2 + self.rng.below(2) } else { self.rng.below(4) };
@@ -604,6 +611,9 @@ impl<'a> Gen<'a> {
 
     // ---------------------------------------------------------------- Luau types
     fn type_tokens(&mut self, depth: usize) {
+        // tame profile: no nested table / function types (width-dependent type layouts are a
+        // known non-idempotent area, exercised by the pinned corpus instead)
+        let depth = if self.tame { depth.min(1) } else { depth };
         let r = if depth == 0 { self.rng.below(4) } else { self.rng.below(12) };
         match r {
             0 => self.t("number"),
@@ -694,8 +704,9 @@ impl<'a> Gen<'a> {
 
     // ---------------------------------------------------------------- statements
     fn emit_expr(&mut self, depth: usize) {
-        self.expr_budget = self.rng.range(0, 8);
-        let e = if self.rng.chance(1, 8) {
+        self.expr_budget = if self.tame { self.rng.range(0, 2) } else { self.rng.range(0, 8) };
+        let depth = if self.tame { depth.min(1) } else { depth };
+        let e = if !self.tame && self.rng.chance(1, 8) {
             let n = self.rng.range(3, 9);
             self.chain_expr(n)
         } else {
@@ -998,7 +1009,7 @@ impl<'a> Gen<'a> {
                 self.t("=");
                 self.type_tokens(3);
             }
-            26 => {
+            26 if !self.tame => {
                 // statement starting with `(` guarded by `;`
                 self.t(";");
                 self.t("(");
@@ -1221,17 +1232,28 @@ pub fn render(rng: &mut Rng, pieces: &[P], st: &Style) -> String {
     out
 }
 
-/// A complete random program for `syntax`.
+/// A complete random program for `syntax` (hostile rendering).
 pub fn program(rng: &mut Rng, syntax: &str) -> String {
+    program_profile(rng, syntax, false)
+}
+
+/// `tame`: conventional spacing, one statement per line, no redundant parentheses or semicolons,
+/// no multi-line strings, no comments — the shape ordinary hand-written code has.
+pub fn program_profile(rng: &mut Rng, syntax: &str, tame: bool) -> String {
     let d = dialect(syntax);
-    let st = Style::random(rng);
+    let st = if tame {
+        Style { crlf: 0, indent: rng.below(3) as u8, wild: 0, newline_in_expr: 0, semis: 0, same_line: 0 }
+    } else {
+        Style::random(rng)
+    };
     let n = *rng.pick(&[1usize, 2, 3, 5, 8, 12, 20]);
-    let comments = rng.chance(2, 3);
-    let shebang = rng.chance(1, 25);
+    let comments = !tame && rng.chance(2, 3);
+    let shebang = !tame && rng.chance(1, 25);
     let pieces = {
         let mut g = Gen::new(rng, d);
+        g.tame = tame;
         g.comments = comments;
-        g.max_depth = *g.rng.pick(&[1usize, 2, 3, 4]);
+        g.max_depth = if tame { *g.rng.pick(&[1usize, 2]) } else { *g.rng.pick(&[1usize, 2, 3, 4]) };
         g.block(3, 1, n);
         let mut out = g.out;
         // top level is level 0: drop block()'s outermost Indent/Dedent pair
